@@ -130,7 +130,6 @@ struct __attribute__((packed)) inputs
 #ifndef NATIVE_REPLAY
 struct inputs nondet_in(void);
 #endif
-static unsigned char old_g_okm_unused;
 
 HARNESS_BEGIN
     HARNESS_INPUTS(struct inputs, in);
@@ -152,6 +151,6 @@ HARNESS_BEGIN
     __CPROVER_assume(g_prklen <= 64 && g_infolen <= MAXINFO && (g_okmlen <= MAXL || g_okmlen > 255 * HLEN));
     __CPROVER_assume(g_i < MAXCALLS && g_k < MAXIN && g_j < MAXL);
     vr_ret = psHkdfExpand((psCipherType_e) g_alg, g_prk, g_prklen, g_info_null ? (const unsigned char *) 0 : g_info, g_infolen, g_okm, g_okmlen);
-    (void) vr_ret; (void) old_g_okm_unused;
+    (void) vr_ret;
     POSTS(NATIVE_CHECK)
 HARNESS_END
